@@ -8,7 +8,7 @@ assume ensures); library calls use the assumed models of pyvc.lib.
 import ast
 import z3
 
-from .core import (Arr, Ref, Obj, PyList, PyDict, View, Ctx, Unsupported, EngineError, is_sym, to_real,
+from .core import (Arr, Ref, Obj, PyList, PyDict, View, Ctx, Hinted, Unsupported, EngineError, is_sym, to_real,
                    to_int, as_term, conc_int, real_const, _unify, INT, REAL, BOOL)
 from . import source
 
@@ -142,11 +142,19 @@ class Exec:
         self.counts[kind] = n + 1
         name = '%s#%d' % (kind, n)
         line = getattr(node, 'lineno', 0) if node is not None else 0
+        hyps = list(st.pc)
+        if isinstance(goal, Hinted):
+            hyps = hyps + [d for d in goal.defs if d is not True]
+            for i, lem in enumerate(goal.lemmas):
+                lem = as_term(lem) if not is_sym(lem) else lem
+                self.obls.append(Obl('%s.hint%d' % (name, i), kind, hyps, lem, line, note))
+                hyps = hyps + [lem]
+            goal = goal.goal
         if goal is True:
             goal = z3.BoolVal(True)
         elif goal is False:
             goal = z3.BoolVal(False)
-        self.obls.append(Obl(name, kind, st.pc, goal, line, note))
+        self.obls.append(Obl(name, kind, hyps, goal, line, note))
         return name
 
     def oblige_all(self, kind, st, goals, node=None):
@@ -1148,7 +1156,7 @@ class Exec:
             return self.c.sqrt(a)
         if isinstance(a, (int, float)) and a == 10:
             return self.c.pow10(b)
-        return self.c.func('pow', REAL, REAL, REAL)(to_real(a), to_real(b))
+        return self.c.func('u_pow', REAL, REAL, REAL)(to_real(a), to_real(b))
 
     def map1(self, f, v, st, kind=None):
         if self.is_arr(v, st):
@@ -1421,6 +1429,18 @@ class Exec:
                         idx.elem((i,)) >= 0, idx.elem((i,)) < to_int(a.shape[0]))), node)
                 return st.alloc(self.c, Arr(idx.shape + a.shape[1:],
                                             lambda ix, a=a, idx=idx: a.elem((idx.elem((ix[0],)),) + tuple(ix[1:])), a.kind))
+        fs = [p for p in plan if p[0] == 'f']
+        if len(fs) == 1 and all(p[0] in ('i', 'f') for p in plan) and len(plan) == a.ndim:
+            idx = st.get(fs[0][1])
+            if isinstance(idx, Arr) and idx.kind == 'int' and idx.ndim == 1:
+                pos = [k for k, p in enumerate(plan) if p[0] == 'f'][0]
+                if 'index' in self.safety:
+                    self.oblige('safe.index', st, self.c.Forall(0, idx.shape[0], lambda i: z3.And(
+                        idx.elem((i,)) >= 0, idx.elem((i,)) < to_int(a.shape[pos]))), node)
+
+                def el(ix, a=a, idx=idx, plan=plan):
+                    return a.elem(tuple(idx.elem((ix[0],)) if p[0] == 'f' else p[1] for p in plan))
+                return st.alloc(self.c, Arr(idx.shape, el, a.kind))
         raise Unsupported('fancy / boolean indexing at line %d' % getattr(node, 'lineno', 0))
 
     def store(self, base, sl, v, st, node):
@@ -1742,8 +1762,12 @@ class Exec:
                 st.put(r, new)
         ret = u.result(self, st, v0) if u.result else None
         v1 = View(c, env, st.heap)
-        post = u.post(c, v0, v1, self.wrap_ret(ret, st)) if u.post else {}
-        st.assume(*[g for _, g in _named(post)])
+        c.assuming = True
+        try:
+            post = u.post(c, v0, v1, self.wrap_ret(ret, st)) if u.post else {}
+        finally:
+            c.assuming = False
+        st.assume(*[(g.goal if isinstance(g, Hinted) else g) for _, g in _named(post)])
         return ret
 
     def wrap_ret(self, ret, st):
